@@ -20,7 +20,7 @@ EXPLANATION = (
     'lock region as the write; (c) status guards exist; (d) read-modify-write '
     'of generator counters is under a lock on every path from a worker entry '
     'point.  Necessary conditions for exactly-once; schedules are not explored.')
-FLOORS = {'C16.g': 2, 'C16.r': 3, 'C16.a': 6, 'C16.b': 2, 'C16.c': 1, 'C16.d': 1, 'C16.e': 2, 'C16.z': 2, 'C16.f': 1}
+FLOORS = {'C16.g': 4, 'C16.r': 3, 'C16.a': 6, 'C16.b': 2, 'C16.c': 1, 'C16.d': 1, 'C16.e': 2, 'C16.z': 2, 'C16.f': 1}
 FILES = ['pyglove/core/tuning/local_backend.py', 'pyglove/core/tuning/sample.py',
          'pyglove/core/tuning/protocols.py', 'pyglove/core/tuning/backend.py',
          'pyglove/core/geno/dna_generator.py', 'pyglove/ext/evolution/base.py']
@@ -497,6 +497,65 @@ def rule_g(ctx):
   ctx.ob('C16.g', f.fq + '#refuse-before-transition', not problems,
          'done() refuses (raises) only while the trial is still PENDING: nothing raises after the status transition',
          f.loc, '; '.join(problems))
+  # (1b) once the trial has left PENDING it is accounted for: from the status store every way
+  # out of done() - also the exceptional one (the algorithm's feedback raised) - passes the
+  # study's completion bookkeeping
+  f = idx.func(LB + '_InMemoryFeedback.done')
+  g = C.cfg_of(f.node)
+  book = lambda k: k.ast is not None and any((A.call_name(c) or '').endswith('_complete_trial') for c in k.calls())
+  stores = [k for k in g.nodes if k.kind == 'stmt' and isinstance(k.ast, ast.Assign)
+            and any(isinstance(t, ast.Attribute) and t.attr == 'status' for t in k.ast.targets)]
+  problems = []
+  def user_code(c):
+    d = (A.call_name(c) or '').split('.')[-1]
+    return d.endswith('_fn') or d.endswith('callback') or d in ('feedback', '_feedback')
+  for st in stores:
+    blocked = {k.id for k in g.nodes if book(k)}
+    seen, _ = g.reach(st, blocked_nodes=blocked, follow_exc=False)
+    if g.exit.id in seen:
+      problems.append(f'normal exit reachable from the status store (line {st.lineno}) without _complete_trial')
+    for i in seen:
+      u = g.nodes[i]
+      if u.ast is None or not any(user_code(c) for c in u.calls()):
+        continue
+      for m, lab in u.succ:
+        if lab != 'exc':
+          continue
+        seen2, _ = g.reach(m, blocked_nodes=blocked, follow_exc=True)
+        seen2.add(m.id)
+        if g.raise_exit.id in seen2:
+          problems.append(f'when `{A.unparse(u.ast, 50)}` (line {u.lineno}) raises, done() is left without _complete_trial')
+  ctx.ob('C16.g', f.fq + '#accounted-on-every-exit', bool(stores) and not problems,
+         'a trial that left PENDING is counted as completed on every way out of done(), also when the algorithm\'s '
+         'feedback raises', f.loc, '; '.join(problems))
+  # (1c) the best-trial comparison orders rewards only when both are present
+  f = idx.func(LB + '_InMemoryResult._complete_trial')
+  g = C.cfg_of(f.node)
+  problems = []
+  ncmp = 0
+  for k in g.nodes:
+    if k.kind != 'test':
+      continue
+    for left, op, right in A.compare_parts(k.ast):
+      if isinstance(op, (ast.Lt, ast.LtE, ast.Gt, ast.GtE)) and 'reward' in A.unparse(left) and 'reward' in A.unparse(right):
+        ncmp += 1
+        for side in (left, right):
+          txt = A.unparse(side)
+          guards = [t for t in g.nodes if t.kind == 'test' and isinstance(t.ast, ast.Compare) and len(t.ast.ops) == 1
+                    and A.unparse(t.ast.left) == txt and A.unparse(t.ast.comparators[0]) == 'None']
+          ok = False
+          for t in guards:
+            lab = 'false' if isinstance(t.ast.ops[0], ast.IsNot) else 'true'   # the "is None" outcome
+            blocked = {(t.id, m.id, l) for m, l in t.succ if l != lab}
+            seen, _ = g.reach(t, blocked_edges=blocked, follow_exc=False)
+            if k.id not in seen:
+              ok = True
+          if not ok:
+            problems.append(f'line {k.lineno}: `{txt}` is ordered without a None test: a best trial without reward '
+                            f'(multi-objective metrics only) makes the comparison raise TypeError')
+  ctx.ob('C16.g', f.fq + '#best-trial-comparison', ncmp >= 1 and not problems,
+         'rewards are ordered only when both are present (None never reaches `<`)', f.loc,
+         '; '.join(problems) or 'reward comparison not found')
   f = idx.func(LB + '_InMemoryBackend.next')
   g = C.cfg_of(f.node)
   lookups = {k.id for k in g.nodes if k.ast is not None and any((A.call_name(c) or '').endswith('get_latest_trial') for c in k.calls())}
